@@ -404,45 +404,56 @@ def obs_of(out: Dict[str, Any]) -> Dict[str, Any]:
     return {"kind": kind, "files": files, "found": list(out.get("found", []))}
 
 
-def canon_state_impl(st: Dict[str, Any]) -> Dict[str, Any]:
+def abs_state(st: Dict[str, Any]) -> Dict[str, Any]:
+    """an observed state in the model's language (input of the one-step simulation)"""
     return {
-        "reg": sorted(map(list, st["reg"])),
-        "spaces": sorted(st["spaces"]),
-        "enums": sorted(st["enums"]),
-        "shared_xmd": sorted(st["shared_xmd"]),
-        "execs": [{"b": e["b"], "job": e["job"], "inject": e["inject"], "shared": e["shared"], "own": sorted(e["own"]), "found": {k: v for k, v in sorted(e["found"].items())}} for e in st["execs"]],
+        "reg": [list(r) for r in st["reg"]],
+        "spaces": st["spaces"],
+        "enums": st["enums"],
+        "shared_xmd": st["shared_xmd"],
+        "execs": [{"b": e["b"], "job": e["job"], "inject": e["inject"], "shared": e["shared"], "own": e["own"], "found": [[k, "@", it] for k, items in sorted(e["found"].items()) for it in items]} for e in st["execs"]],
         "counter": st["counter"],
     }
 
 
-def canon_state_model(st: Dict[str, Any]) -> Dict[str, Any]:
+def components_impl(st: Dict[str, Any]) -> Dict[str, Any]:
+    c = {"registry": sorted(map(list, st["reg"])), "namespaces+enums": [sorted(st["spaces"]), sorted(st["enums"])], "name counter": st["counter"], "number of executors": len(st["execs"])}
+    for n, e in enumerate(st["execs"]):
+        c[f"executor {n} backend"] = e["b"]
+        c[f"executor {n} job blocks"] = e["job"]
+        c[f"executor {n} inject blocks"] = e["inject"]
+        c[f"executor {n} shares the default extended_md dict"] = e["shared"]
+        c[f"executor {n} effective extended_md"] = sorted(st["shared_xmd"]) if e["shared"] else sorted(e["own"])
+        c[f"executor {n} found extended md"] = {k: v for k, v in sorted(e["found"].items()) if v}
+    return c
+
+
+def components_model(st: Dict[str, Any]) -> Dict[str, Any]:
     impl = _impl()
-    execs = []
-    for e in st["execs"]:
+    c = {"registry": sorted(st["reg"]), "namespaces+enums": [sorted(st["spaces"]), sorted(st["enums"])], "name counter": st["counter"], "number of executors": len(st["execs"])}
+    for n, e in enumerate(st["execs"]):
         found: Dict[str, List[str]] = {}
         for kind, proto, fields in e["found"]:
             found.setdefault(kind, []).append(impl.expected_found_render(kind, proto, fields))
-        execs.append({"b": e["b"], "job": e["job"], "inject": e["inject"], "shared": e["shared"], "own": sorted(e["own"]) if not e["shared"] else [], "found": {k: v for k, v in sorted(found.items())}})
-    return {
-        "reg": sorted(st["reg"]),
-        "spaces": sorted(st["spaces"]),
-        "enums": sorted(st["enums"]),
-        "shared_xmd": sorted(st["shared_xmd"]),
-        "execs": execs,
-        "counter": st["counter"],
-    }
+        c[f"executor {n} backend"] = e["b"]
+        c[f"executor {n} job blocks"] = e["job"]
+        c[f"executor {n} inject blocks"] = e["inject"]
+        c[f"executor {n} shares the default extended_md dict"] = e["shared"]
+        c[f"executor {n} effective extended_md"] = sorted(st["shared_xmd"]) if e["shared"] else sorted(e["own"])
+        c[f"executor {n} found extended md"] = {k: v for k, v in sorted(found.items())}
+    return c
 
 
-def state_diff(m, i) -> Optional[str]:
-    for k in ["reg", "spaces", "enums", "shared_xmd", "counter"]:
-        if m[k] != i[k]:
-            return f"{k}: model {m[k]} / implementation {i[k]}"
-    if len(m["execs"]) != len(i["execs"]):
-        return f"number of executors: model {len(m['execs'])} / implementation {len(i['execs'])}"
-    for n, (a, b) in enumerate(zip(m["execs"], i["execs"])):
-        for k in ["b", "job", "inject", "shared", "own", "found"]:
-            if a[k] != b[k]:
-                return f"executor {n} {k}: model {a[k]} / implementation {b[k]}"
+def state_diff(asis, ideal, impl_st) -> Optional[str]:
+    """None if every component of the observed state is what the model of the code as it is predicts, or what the
+    repaired variant of the operation would give (see Driver.lean `idealStep`)"""
+    a, d, i = components_model(asis), components_model(ideal), components_impl(impl_st)
+    for k in i:
+        if k not in a or (i[k] != a[k] and i[k] != d.get(k)):
+            return f"{k}: model {a.get(k)} / implementation {i[k]}"
+    for k in a:
+        if k not in i:
+            return f"{k}: model {a[k]} / implementation has none"
     return None
 
 
@@ -502,7 +513,7 @@ def evaluate(ctx, cases: List[Dict[str, Any]], stream: str, judge: bool = True):
 
     def requests(case, run):
         fr = fresh_cache[fresh_of(case["probe"])]
-        return {"op": "run", "history": history_model(case, run["ops"]), "probe": probe_model(case["probe"], run["probe"], fr), "on": case["probe"].get("on")}
+        return {"op": "run", "history": history_model(case, run["ops"]), "states": [abs_state(st) for st in run["states"]], "probe": probe_model(case["probe"], run["probe"], fr), "on": case["probe"].get("on")}
 
     for c, r in zip(cases, runs):
         if "crash" in r or "crash" in fresh_cache[fresh_of(c["probe"])]:
@@ -513,7 +524,7 @@ def evaluate(ctx, cases: List[Dict[str, Any]], stream: str, judge: bool = True):
     for i, (c, r, a) in enumerate(zip(cases, runs, ans)):
         if "bad" in a:
             continue
-        flags = [x and y for x, y in zip(a["benignNew"], a["benignOn"])]
+        flags = [st["benignNew"] and st["benignOn"] for st in a["steps"]]
         if not all(flags):
             cut = flags.index(False)
             ctx.count("history-cut-to-benign-prefix")
@@ -559,11 +570,11 @@ def evaluate(ctx, cases: List[Dict[str, Any]], stream: str, judge: bool = True):
         all_benign = a["allBenign"]
         verdict.update({"holds": g.get("holds"), "why": g.get("why", ""), "benign": all_benign, "clean": a["clean"]})
         # ---- the tie: states after every operation, the model's own predictions
-        for k, (op, out, ms, ist, mo) in enumerate(zip(hist, r["ops"], a["states"], r["states"], a["outcomes"])):
-            if not outcome_matches(mo, out):
-                ctx.disagreement("outcome-of-operation", {"history": hist[: k + 1]}, mo, {k2: out.get(k2) for k2 in ("stage", "error", "message")})
+        for k, (op, out, st, ist) in enumerate(zip(hist, r["ops"], a["steps"], r["states"])):
+            if not outcome_matches(st["outcome"], out):
+                ctx.disagreement("outcome-of-operation", {"history": hist[: k + 1]}, st["outcome"], {k2: out.get(k2) for k2 in ("stage", "error", "message")})
                 break
-            d = state_diff(canon_state_model(ms), canon_state_impl(ist))
+            d = state_diff(st["asis"], st["ideal"], ist)
             if d is not None:
                 ctx.disagreement("state-after-operation", {"history": hist[: k + 1], "operation": k}, d, "see model/implementation in the text")
                 break
@@ -571,7 +582,7 @@ def evaluate(ctx, cases: List[Dict[str, Any]], stream: str, judge: bool = True):
             if not outcome_matches(a["probe"]["outcome"], r["probe"]):
                 ctx.disagreement("outcome-of-probe", {"history": hist, "probe": c["probe"]}, a["probe"]["outcome"], {k2: r["probe"].get(k2) for k2 in ("stage", "error", "message")})
             else:
-                d = state_diff(canon_state_model(a["final"]), canon_state_impl(r["final"]))
+                d = state_diff(a["probe"]["asis"], a["probe"]["ideal"], r["final"])
                 if d is not None:
                     ctx.disagreement("state-after-probe", {"history": hist, "probe": c["probe"]}, d, "see text")
             impl = _impl()
@@ -627,7 +638,7 @@ def known_stream(ctx):
         pm = probe_model(c["probe"], r["probe"], f)
         hm = history_model(c, r["ops"])
         reqs.append({"op": "agree", "fresh": obs_of(f), "after": obs_of(r["probe"])})
-        reqs.append({"op": "run", "history": hm, "probe": pm, "on": c["probe"].get("on")})
+        reqs.append({"op": "run", "history": hm, "states": [abs_state(st) for st in r["states"]], "probe": pm, "on": c["probe"].get("on")})
         reqs.append({"op": "witness", "name": e["input"].get("witness", ""), "history": hm, "probe": pm, "on": c["probe"].get("on")})
     ans = ctx.driver(DRIVER, reqs)
     for i, (e, c, r, f) in enumerate(zip(entries, cases, runs, fresh)):
@@ -655,7 +666,7 @@ def run(ctx):
     corpus = [{"history": c["history"], "probe": c["probe"]} for c in vlib.corpus_cases(ID)]
     if corpus:
         evaluate(ctx, corpus, "corpus")
-    n = 160 if ctx.tier == "quick" else 1600
+    n = 240 if ctx.tier == "quick" else 3000
     chunk = 160
     done = 0
     while done < n:
@@ -674,7 +685,7 @@ def fails(ctx, case) -> Optional[Dict[str, Any]]:
     f = run_fresh(case["probe"])
     if "crash" in r or "crash" in f:
         return None
-    a, g = ctx.driver(DRIVER, [{"op": "run", "history": history_model(case, r["ops"]), "probe": probe_model(case["probe"], r["probe"], f), "on": case["probe"].get("on")}, {"op": "agree", "fresh": obs_of(f), "after": obs_of(r["probe"])}])
+    a, g = ctx.driver(DRIVER, [{"op": "run", "history": history_model(case, r["ops"]), "states": [abs_state(st) for st in r["states"]], "probe": probe_model(case["probe"], r["probe"], f), "on": case["probe"].get("on")}, {"op": "agree", "fresh": obs_of(f), "after": obs_of(r["probe"])}])
     if "bad" in a or "bad" in g:
         return None
     if a["allBenign"] and not g["holds"]:
